@@ -54,6 +54,28 @@ func init() {
 			s2.ghosts["sleeps"] = tApp("Int", "+", x.ghostInt(st, "sleeps"), tInt(1))
 			k(s2, nil)
 		}},
+		"(*sync.Pool).Get": {run: func(x *Exec, st *State, fr *Frame, ce *ast.CallExpr, recv Term, args []Term, k func(*State, []Term)) {
+			x.trust("sync.Pool: Get returns a new value or one previously Put and not handed out since (never one still in use); the pool of pipe.queue holds only *q values")
+			s2 := st.clone()
+			r := x.d.fresh("pooled", "Ref")
+			pm := x.heapMap(s2, "Pooled", "Bool")
+			am := x.heapMap(s2, "Alloc", "Bool")
+			s2.assume(tNot(tEq(r, nullRef)))
+			s2.assume(tOr(tNot(tSelect(am, r, "Bool")), tSelect(pm, r, "Bool")))
+			s2.maps["Alloc"] = tStore(am, r, tTrue)
+			s2.maps["Pooled"] = tStore(pm, r, tFalse)
+			r.Ty = x.info.TypeOf(ce)
+			k(s2, []Term{r})
+		}},
+		"(*sync.Pool).Put": {run: func(x *Exec, st *State, fr *Frame, ce *ast.CallExpr, recv Term, args []Term, k func(*State, []Term)) {
+			x.trust("sync.Pool: Get returns a new value or one previously Put and not handed out since (never one still in use); the pool of pipe.queue holds only *q values")
+			s2 := st.clone()
+			pm := x.heapMap(s2, "Pooled", "Bool")
+			if len(args) == 1 && args[0].Sort == "Ref" {
+				s2.maps["Pooled"] = tStore(pm, args[0], tTrue)
+			}
+			k(s2, nil)
+		}},
 		"(*sync.WaitGroup).Add": {run: func(x *Exec, st *State, fr *Frame, ce *ast.CallExpr, recv Term, args []Term, k func(*State, []Term)) {
 			x.trust("sync.WaitGroup: Wait returns after as many Done calls as were Added (happens-before)")
 			s2 := st.clone()
